@@ -19,8 +19,8 @@ import explore
 import linear
 
 EXT_INDEX = re.compile(r"(::index::<impl std::ops::Index(Mut)?<I> for \[T\]>::index(_mut)?$)|(as std::ops::Index(Mut)?<I>>::index(_mut)?$)|(impl std::ops::Index<I> for (str|\[T; N\])>::index$)")
-PANIC_FNS = ("core::panicking::panic_fmt", "core::panicking::panic", "core::panicking::assert_failed", "core::panicking::unreachable_display",
-             "core::panicking::panic_display", "core::option::expect_failed", "core::result::unwrap_failed")
+PANIC_FNS = ("std::panicking::panic_fmt", "std::panicking::panic", "std::panicking::assert_failed", "std::panicking::unreachable_display",
+             "std::panicking::panic_display", "std::option::expect_failed", "std::result::unwrap_failed")
 A_MEM = 1 << 56       # assumption A-MEM: in-memory lengths / sizes are below 2^56
 DEC_RET = re.compile(r"^std::result::Result<\(.*, usize\), mqtt::result_code::MqttError>$")
 
